@@ -52,6 +52,8 @@ const (
 	pHookFn    // a function value whose calls go to the client (i: id)
 	pNonNil    // an interface / pointer / error known not to be nil (refined on the edge of a nil test)
 	pPoison    // a value the walk once knew and lost (forgotten list, disagreeing callee paths): never branch on it
+	pFloat     // a floating point constant (s: its exact value); only equality is known
+	pTok       // element i of a designated input list, after the operations recorded in s (conversions, comparisons with constants)
 )
 
 type pval struct {
@@ -85,7 +87,62 @@ type pheap struct {
 	objs   map[int64]*pobj
 	maps   map[int64]*pmap
 	iters  map[int64]*piter
+	alias  map[int64][]palias // re-sliced views: element j of the key is element j+delta of the other list
+	cells  map[int64]bool     // one-element lists standing for a variable whose address is taken (captured by a closure)
 	next   int64
+}
+
+type palias struct {
+	other, delta int64
+}
+
+// storeElem writes element j of a list and of every view that shares the element.
+func (h *pheap) storeElem(id, j int64, v pval) {
+	type at struct{ id, j int64 }
+	seen := map[int64]bool{}
+	work := []at{{id, j}}
+	for len(work) > 0 {
+		w := work[len(work)-1]
+		work = work[:len(work)-1]
+		if seen[w.id] {
+			continue
+		}
+		seen[w.id] = true
+		if l := h.lists[w.id]; l != nil && w.j >= 0 && w.j < int64(len(l)) {
+			l[w.j] = v
+		}
+		for _, e := range h.alias[w.id] {
+			work = append(work, at{e.other, w.j + e.delta})
+		}
+	}
+}
+
+// forget drops the content of a list and of every view of it.
+func (h *pheap) forget(id int64) {
+	seen := map[int64]bool{}
+	work := []int64{id}
+	for len(work) > 0 {
+		w := work[len(work)-1]
+		work = work[:len(work)-1]
+		if seen[w] {
+			continue
+		}
+		seen[w] = true
+		if h.cells[w] {
+			// a variable: its value is unknown from here on, which is not the same as a list that was known
+			if l := h.lists[w]; len(l) == 1 {
+				l[0] = pval{}
+			}
+			continue
+		}
+		if h.lists[w] != nil {
+			h.poison[w] = true
+		}
+		h.lists[w] = nil
+		for _, e := range h.alias[w] {
+			work = append(work, e.other)
+		}
+	}
 }
 
 func newHeap() *pheap {
@@ -155,6 +212,18 @@ func (h *pheap) clone() *pheap {
 	for k := range h.poison {
 		n.poison[k] = true
 	}
+	if len(h.cells) > 0 {
+		n.cells = make(map[int64]bool, len(h.cells))
+		for k := range h.cells {
+			n.cells[k] = true
+		}
+	}
+	if len(h.alias) > 0 {
+		n.alias = make(map[int64][]palias, len(h.alias))
+		for k, v := range h.alias {
+			n.alias[k] = v // edges are never modified in place
+		}
+	}
 	for k, o := range h.objs {
 		c := &pobj{fields: make(map[int]pval, len(o.fields)), typ: o.typ}
 		for f, v := range o.fields {
@@ -214,6 +283,10 @@ type pinterp struct {
 	objects          bool            // model struct objects, maps and slices of arbitrary values (the interpreter tables of the Run plumbing)
 	hdrCache         map[*ssa.Function]bool
 	listReads        int
+	nextFree         []pval // values of the free variables of the closure about to be run
+	extModel         func(key string, call *ssa.Call, operands []pval, h *pheap) ([]pval, bool) // the client answers a gorgonia call
+	cover            *pcover // when set: every block the walk enters is recorded (shared by the cells of one table)
+	intercept        func(fn *ssa.Function, call *ssa.Call, callee *ssa.Function, args []pval, h *pheap) ([]pval, bool) // the client answers a library call instead of the walk
 }
 
 type pframe struct {
@@ -272,6 +345,15 @@ func (p *pinterp) run(fn *ssa.Function, args []pval, depth int, heap *pheap) ([]
 			fr.env[prm] = args[i]
 		}
 	}
+	if len(fn.FreeVars) > 0 {
+		free := p.nextFree
+		for i, fv := range fn.FreeVars {
+			if i < len(free) && free[i].k != pUnknown {
+				fr.env[fv] = free[i]
+			}
+		}
+	}
+	p.nextFree = nil
 	var results []presult
 	incomplete := false
 	p.walk(fn, fr, fn.Blocks[0], nil, depth, &results, &incomplete)
@@ -351,6 +433,8 @@ func (p *pinterp) val(fr *pframe, v ssa.Value) pval {
 			return pval{k: pBool, b: constant.BoolVal(k.Value)}
 		case constant.String:
 			return pval{k: pStr, s: constant.StringVal(k.Value)}
+		case constant.Float:
+			return pval{k: pFloat, s: k.Value.ExactString()}
 		}
 		return pval{}
 	}
@@ -372,6 +456,9 @@ outer:
 		if p.aborted {
 			*incomplete = true
 			return
+		}
+		if p.cover != nil {
+			p.cover.mark(fn, blk)
 		}
 		fr.visits[blk]++
 		if fr.visits[blk] > 64 {
@@ -408,6 +495,12 @@ outer:
 				switch {
 				case a.k == pPoison || b.k == pPoison:
 					fr.env[x] = pval{k: pPoison}
+				case (a.k == pTok && b.k == pInt) || (a.k == pInt && b.k == pTok):
+					if a.k == pTok {
+						fr.env[x] = pval{k: pTok, i: a.i, s: fmt.Sprintf("%s|x %s %d", a.s, x.Op, b.i)}
+					} else {
+						fr.env[x] = pval{k: pTok, i: b.i, s: fmt.Sprintf("%s|%d %s x", b.s, a.i, x.Op)}
+					}
 				case a.k == pInt && b.k == pInt:
 					dep := a.dep || b.dep
 					switch x.Op {
@@ -432,6 +525,8 @@ outer:
 					}
 				case a.k == pStr && b.k == pStr && (x.Op == token.EQL || x.Op == token.NEQ):
 					fr.env[x] = pval{k: pBool, b: (a.s == b.s) == (x.Op == token.EQL)}
+				case a.k == pFloat && b.k == pFloat && (x.Op == token.EQL || x.Op == token.NEQ):
+					fr.env[x] = pval{k: pBool, b: (a.s == b.s) == (x.Op == token.EQL)}
 				case (a.k == pObj || a.k == pAbs) && a.k == b.k && (x.Op == token.EQL || x.Op == token.NEQ):
 					fr.env[x] = pval{k: pBool, b: (a.i == b.i) == (x.Op == token.EQL)}
 				case a.k == pBool && b.k == pBool:
@@ -455,7 +550,7 @@ outer:
 					switch o.k {
 					case pNil:
 						fr.env[x] = pval{k: pBool, b: x.Op == token.EQL}
-					case pTensor, pList, pShape, pData, pRecv, pInputs, pShaped, pNonNil, pFunc, pObj, pMap, pAbs, pHookFn, pStr, pStructVal:
+					case pTensor, pList, pShape, pData, pRecv, pInputs, pShaped, pNonNil, pFunc, pObj, pMap, pAbs, pHookFn, pStr, pStructVal, pElemAddr, pFieldAddr:
 						fr.env[x] = pval{k: pBool, b: x.Op == token.NEQ}
 					}
 				}
@@ -579,7 +674,25 @@ outer:
 						}
 					case *types.Struct:
 						fr.env[x] = fr.heap.newObj(pt.Elem())
+					default:
+						// a variable whose address is taken (captured by a closure, passed to a helper)
+						z, _ := zeroOf(pt.Elem())
+						id := fr.heap.alloc([]pval{z})
+						if fr.heap.cells == nil {
+							fr.heap.cells = map[int64]bool{}
+						}
+						fr.heap.cells[id.i] = true
+						fr.env[x] = pval{k: pElemAddr, i: id.i, j: 0}
 					}
+				}
+			case *ssa.MakeClosure:
+				delete(fr.env, x)
+				if f, ok := x.Fn.(*ssa.Function); ok {
+					b := make([]pval, len(x.Bindings))
+					for i, bv := range x.Bindings {
+						b[i] = p.val(fr, bv)
+					}
+					fr.env[x] = pval{k: pFunc, fn: f, i: fr.heap.alloc(b).i}
 				}
 			case *ssa.MakeSlice:
 				delete(fr.env, x)
@@ -683,7 +796,7 @@ outer:
 					}
 				case pElemAddr:
 					if l := fr.heap.lists[ad.i]; l != nil && ad.j < int64(len(l)) {
-						l[ad.j] = p.val(fr, x.Val)
+						fr.heap.storeElem(ad.i, ad.j, p.val(fr, x.Val))
 					}
 				default:
 					if fa, ok := x.Addr.(*ssa.FieldAddr); ok && p.val(fr, fa.X).k == pRecv {
@@ -793,7 +906,7 @@ outer:
 					delete(fr.tuples, x)
 					// a tensor asserted to the tensor interface (or to *Dense, which every gonnx tensor is)
 					v := p.val(fr, x.X)
-					if v.k == pShaped || v.k == pTensor {
+					if v.k == pShaped || v.k == pTensor || (v.k == pAbs && v.s == "tensor") {
 						if isTensorish(x.AssertedType) {
 							fr.tuples[x] = []pval{v, {k: pBool, b: true}}
 						}
@@ -863,9 +976,17 @@ outer:
 						}
 					}
 					if okb && lo >= 0 && lo <= hi && hi <= int64(len(l)) {
-						// a copy: later stores through one of the two are not seen through the other (the rules
-						// that use lists only read re-sliced views)
-						fr.env[x] = fr.heap.alloc(append([]pval{}, l[lo:hi]...))
+						// a view: a list of its own whose elements are tied to the base's (stores through either
+						// are seen through the other)
+						nv := fr.heap.alloc(append([]pval{}, l[lo:hi]...))
+						if base.k == pList {
+							if fr.heap.alias == nil {
+								fr.heap.alias = map[int64][]palias{}
+							}
+							fr.heap.alias[nv.i] = append(append([]palias{}, fr.heap.alias[nv.i]...), palias{base.i, lo})
+							fr.heap.alias[base.i] = append(append([]palias{}, fr.heap.alias[base.i]...), palias{nv.i, -lo})
+						}
+						fr.env[x] = nv
 					}
 				}
 			case *ssa.Extract:
@@ -998,6 +1119,15 @@ func (p *pinterp) pass(fr *pframe, dst, src ssa.Value, intOnly bool) {
 		fr.env[dst] = v
 		return
 	}
+	if (v.k == pStr || v.k == pFloat) && intOnly {
+		// string([]byte) of a value the client gave as a string; float32(float64 constant)
+		fr.env[dst] = v
+		return
+	}
+	if v.k == pTok && intOnly {
+		fr.env[dst] = pval{k: pTok, i: v.i, s: v.s + "|conv:" + dst.Type().String()}
+		return
+	}
 	if v.k == pUnknown || (intOnly && v.k != pInt) {
 		return
 	}
@@ -1019,10 +1149,7 @@ func (p *pinterp) havoc(fr *pframe, args []pval, callee ...*ssa.Function) {
 	}
 	for _, a := range args {
 		if a.k == pList || a.k == pElemAddr || a.k == pRevList {
-			if fr.heap.lists[a.i] != nil {
-				fr.heap.poison[a.i] = true
-			}
-			fr.heap.lists[a.i] = nil
+			fr.heap.forget(a.i)
 		}
 		if a.k == pShaped && mayReshape {
 			if fr.heap.lists[a.j] != nil {
@@ -1099,7 +1226,53 @@ func (p *pinterp) call(fn *ssa.Function, fr *pframe, x *ssa.Call, depth int) {
 				}
 			}
 		case "copy":
-			p.havoc(fr, []pval{p.val(fr, cc.Args[0])})
+			dst, src := p.val(fr, cc.Args[0]), p.val(fr, cc.Args[1])
+			var sl []pval
+			okS := false
+			switch src.k {
+			case pList:
+				sl, okS = fr.heap.lists[src.i], fr.heap.lists[src.i] != nil
+			case pShape:
+				sl, okS = p.shapeList(src.i)
+			case pNil:
+				okS = true
+			}
+			if dst.k == pNil {
+				fr.env[x] = pval{k: pInt, i: 0}
+			} else if dl := fr.heap.lists[dst.i]; dst.k == pList && dl != nil && okS {
+				n := len(dl)
+				if len(sl) < n {
+					n = len(sl)
+				}
+				vals := append([]pval{}, sl[:n]...) // source and destination may overlap
+				for k := 0; k < n; k++ {
+					fr.heap.storeElem(dst.i, int64(k), vals[k])
+				}
+				fr.env[x] = pval{k: pInt, i: int64(n)}
+			} else {
+				p.havoc(fr, []pval{dst})
+			}
+		case "max", "min":
+			res, okAll, dep := pval{}, len(cc.Args) > 0, false
+			for i, a := range cc.Args {
+				v := p.val(fr, a)
+				if v.k == pPoison {
+					fr.env[x] = v
+					return
+				}
+				if v.k != pInt {
+					okAll = false
+					break
+				}
+				dep = dep || v.dep
+				if i == 0 || (b.Name() == "max" && v.i > res.i) || (b.Name() == "min" && v.i < res.i) {
+					res = v
+				}
+			}
+			if okAll {
+				res.dep = dep
+				fr.env[x] = res
+			}
 		}
 		return
 	}
@@ -1125,6 +1298,36 @@ func (p *pinterp) call(fn *ssa.Function, fr *pframe, x *ssa.Call, depth int) {
 				vals[i] = p.val(fr, o)
 			}
 			p.onExt(fn, x, key, vals, fr.heap)
+		}
+	}
+	if p.extModel != nil {
+		key := ""
+		var operands []ssa.Value
+		if cc.IsInvoke() {
+			if cc.Method.Pkg() != nil && cc.Method.Pkg().Path() == pkgTensor {
+				key = pkgTensor + "#" + cc.Method.Name()
+				operands = append(operands, cc.Value)
+			}
+		} else if sc := cc.StaticCallee(); sc != nil && fnPkgPath(sc) == pkgTensor {
+			key = pkgTensor + "." + sc.Name()
+			if sc.Signature.Recv() != nil {
+				key = pkgTensor + "#" + sc.Name()
+			}
+		}
+		if key != "" {
+			operands = append(operands, cc.Args...)
+			vals := make([]pval, len(operands))
+			for i, o := range operands {
+				vals[i] = p.val(fr, o)
+			}
+			if res, ok := p.extModel(key, x, vals, fr.heap); ok {
+				if len(res) == 1 {
+					fr.env[x] = res[0]
+				} else if len(res) > 1 {
+					fr.tuples[x] = res
+				}
+				return
+			}
 		}
 	}
 	if cc.IsInvoke() && p.objects {
@@ -1312,6 +1515,31 @@ func (p *pinterp) call(fn *ssa.Function, fr *pframe, x *ssa.Call, depth int) {
 			}
 			return
 		}
+		if rv.k == pList && (name == "Dims" || name == "TotalSize" || name == "IsScalar") {
+			// methods of tensor.Shape on a list of known extents
+			if l := fr.heap.lists[rv.i]; l != nil {
+				switch name {
+				case "Dims":
+					fr.env[x] = pval{k: pInt, i: int64(len(l))}
+				case "IsScalar":
+					fr.env[x] = pval{k: pBool, b: len(l) == 0}
+				case "TotalSize":
+					pr, ok := int64(1), true
+					for _, e := range l {
+						if e.k != pInt {
+							ok = false
+						}
+						pr *= e.i
+					}
+					if ok {
+						fr.env[x] = pval{k: pInt, i: pr}
+					}
+				}
+			} else if fr.heap.poison[rv.i] {
+				fr.env[x] = pval{k: pPoison}
+			}
+			return
+		}
 		switch {
 		case rv.k == pTensor && name == "Clone":
 			// a copy of the input with a header of its own
@@ -1354,7 +1582,20 @@ func (p *pinterp) call(fn *ssa.Function, fr *pframe, x *ssa.Call, depth int) {
 					fr.tuples[x] = res
 					return
 				}
-			} else if (isLibFn(fv.fn) || isControlFn(fv.fn)) && len(fv.fn.Blocks) > 0 && depth < p.maxDepth() {
+			} else if (isLibFn(fv.fn) || isControlFn(fv.fn)) && len(fv.fn.Blocks) > 0 && depth < p.maxDepth() && (len(fv.fn.FreeVars) == 0 || fr.heap.lists[fv.i] != nil) {
+				if p.intercept != nil {
+					if res, ok := p.intercept(fn, x, fv.fn, args, fr.heap); ok {
+						if len(res) == 1 {
+							fr.env[x] = res[0]
+						} else if len(res) > 1 {
+							fr.tuples[x] = res
+						}
+						return
+					}
+				}
+				if len(fv.fn.FreeVars) > 0 {
+					p.nextFree = fr.heap.lists[fv.i]
+				}
 				res, h := p.run(fv.fn, args, depth+1, fr.heap.clone())
 				if h != nil {
 					fr.heap = h
@@ -1395,22 +1636,205 @@ func (p *pinterp) call(fn *ssa.Function, fr *pframe, x *ssa.Call, depth int) {
 		return
 	}
 	switch fnPkgPath(sc) {
-	case "slices":
-		if strings.HasPrefix(sc.Name(), "Contains") && len(cc.Args) == 2 {
-			l, v := p.val(fr, cc.Args[0]), p.val(fr, cc.Args[1])
-			if l.k == pList && v.k == pInt && fr.heap.lists[l.i] != nil {
-				found, known := false, true
-				for _, e := range fr.heap.lists[l.i] {
-					if e.k != pInt {
-						known = false
-					} else if e.i == v.i {
-						found = true
+	case "maps":
+		base := sc.Name()
+		if i := strings.Index(base, "["); i >= 0 {
+			base = base[:i]
+		}
+		switch base {
+		case "Copy":
+			if len(cc.Args) == 2 {
+				dst, src := p.val(fr, cc.Args[0]), p.val(fr, cc.Args[1])
+				if dst.k == pMap && fr.heap.maps[dst.i] != nil {
+					switch src.k {
+					case pMap:
+						if sm := fr.heap.maps[src.i]; sm != nil {
+							for i, k := range sm.keys {
+								fr.heap.maps[dst.i].set(k, sm.vals[i])
+							}
+							return
+						}
+					case pNil:
+						return
 					}
-				}
-				if known || found {
-					fr.env[x] = pval{k: pBool, b: found, dep: v.dep}
+					delete(fr.heap.maps, dst.i) // an unknown source: the content is no longer known
 				}
 			}
+			return
+		case "Clone":
+			if len(cc.Args) == 1 {
+				switch src := p.val(fr, cc.Args[0]); src.k {
+				case pMap:
+					if sm := fr.heap.maps[src.i]; sm != nil {
+						nm := fr.heap.newMap()
+						fr.heap.maps[nm.i] = &pmap{keys: append([]pval{}, sm.keys...), vals: append([]pval{}, sm.vals...)}
+						fr.env[x] = nm
+					}
+				case pNil:
+					fr.env[x] = src
+				}
+			}
+			return
+		}
+		return
+	case "slices":
+		base := sc.Name()
+		if i := strings.Index(base, "["); i >= 0 {
+			base = base[:i]
+		}
+		listOf := func(v pval) ([]pval, bool) {
+			switch v.k {
+			case pList:
+				l := fr.heap.lists[v.i]
+				return l, l != nil
+			case pNil:
+				return nil, true
+			case pShape:
+				return p.shapeList(v.i)
+			}
+			return nil, false
+		}
+		switch base {
+		case "Contains", "Index":
+			if len(cc.Args) == 2 {
+				l, okL := listOf(p.val(fr, cc.Args[0]))
+				v := p.val(fr, cc.Args[1])
+				if okL && (v.k == pInt || v.k == pStr || v.k == pAbs) {
+					found, known, at := false, true, int64(-1)
+					for i, e := range l {
+						if e.k != v.k {
+							known = false
+						} else if sameKey(e, v) {
+							found = true
+							if at < 0 {
+								at = int64(i)
+							}
+							break
+						}
+					}
+					if known || found {
+						dep := v.dep
+						for _, e := range l {
+							dep = dep || e.dep
+						}
+						if base == "Contains" {
+							fr.env[x] = pval{k: pBool, b: found, dep: dep}
+						} else {
+							fr.env[x] = pval{k: pInt, i: at, dep: dep}
+						}
+					}
+				}
+			}
+		case "ContainsFunc", "IndexFunc":
+			if len(cc.Args) == 2 {
+				l, okL := listOf(p.val(fr, cc.Args[0]))
+				fv := p.val(fr, cc.Args[1])
+				if okL && fv.k == pFunc {
+					at, known := int64(-1), true
+					for i, e := range l {
+						res, ok := p.callFunc(fr, fv, []pval{e}, depth)
+						if !ok || len(res) != 1 || res[0].k != pBool {
+							known = false
+							break
+						}
+						if res[0].b {
+							at = int64(i)
+							break
+						}
+					}
+					if known {
+						if base == "ContainsFunc" {
+							fr.env[x] = pval{k: pBool, b: at >= 0, dep: true}
+						} else {
+							fr.env[x] = pval{k: pInt, i: at, dep: true}
+						}
+					}
+				}
+			}
+		case "Clone":
+			if len(cc.Args) == 1 {
+				v := p.val(fr, cc.Args[0])
+				if v.k == pNil {
+					fr.env[x] = v
+				} else if l, ok := listOf(v); ok {
+					fr.env[x] = fr.heap.alloc(append([]pval{}, l...))
+				}
+			}
+		case "Equal":
+			if len(cc.Args) == 2 {
+				a, okA := listOf(p.val(fr, cc.Args[0]))
+				b, okB := listOf(p.val(fr, cc.Args[1]))
+				if okA && okB {
+					eq, known := len(a) == len(b), true
+					for i := 0; eq && i < len(a); i++ {
+						if a[i].k != b[i].k || (a[i].k != pInt && a[i].k != pStr) {
+							known = false
+						} else if !sameKey(a[i], b[i]) {
+							eq = false
+						}
+					}
+					if known {
+						fr.env[x] = pval{k: pBool, b: eq}
+					}
+				}
+			}
+		case "Max", "Min":
+			if len(cc.Args) == 1 {
+				if l, ok := listOf(p.val(fr, cc.Args[0])); ok && len(l) > 0 {
+					best, all := l[0], true
+					for _, e := range l {
+						if e.k != pInt {
+							all = false
+						} else if (base == "Max" && e.i > best.i) || (base == "Min" && e.i < best.i) {
+							best = e
+						}
+					}
+					if all {
+						fr.env[x] = best
+					}
+				}
+			}
+		case "Sort", "Reverse":
+			if a := p.val(fr, cc.Args[0]); a.k == pList {
+				l := fr.heap.lists[a.i]
+				all := l != nil
+				for _, e := range l {
+					if e.k != pInt && base == "Sort" {
+						all = false
+					}
+				}
+				if all {
+					if base == "Sort" {
+						sort.SliceStable(l, func(i, j int) bool { return l[i].i < l[j].i })
+					} else {
+						for i, j := 0, len(l)-1; i < j; i, j = i+1, j-1 {
+							l[i], l[j] = l[j], l[i]
+						}
+					}
+					for k, e := range append([]pval{}, l...) {
+						fr.heap.storeElem(a.i, int64(k), e)
+					}
+				} else {
+					fr.heap.forget(a.i)
+				}
+			}
+		case "Delete":
+			if len(cc.Args) == 3 {
+				a, lo, hi := p.val(fr, cc.Args[0]), p.val(fr, cc.Args[1]), p.val(fr, cc.Args[2])
+				if l := fr.heap.lists[a.i]; a.k == pList && l != nil && lo.k == pInt && hi.k == pInt && 0 <= lo.i && lo.i <= hi.i && hi.i <= int64(len(l)) {
+					nl := append(append([]pval{}, l[:lo.i]...), l[hi.i:]...)
+					fr.heap.forget(a.i) // the backing array is shifted in place
+					fr.env[x] = fr.heap.alloc(nl)
+				} else if a.k == pList {
+					fr.heap.forget(a.i)
+				}
+			}
+		default:
+			args := make([]pval, len(cc.Args))
+			for i, a := range cc.Args {
+				args[i] = p.val(fr, a)
+			}
+			p.havoc(fr, args)
 		}
 		return
 	case "sort":
@@ -1436,8 +1860,11 @@ func (p *pinterp) call(fn *ssa.Function, fr *pframe, x *ssa.Call, depth int) {
 					} else {
 						sort.SliceStable(l, func(i, j int) bool { return l[i].i < l[j].i })
 					}
+					for k, e := range append([]pval{}, l...) {
+						fr.heap.storeElem(a.i, int64(k), e)
+					}
 				} else {
-					fr.heap.lists[a.i] = nil
+					fr.heap.forget(a.i)
 				}
 			}
 			return
@@ -1572,8 +1999,11 @@ func (p *pinterp) call(fn *ssa.Function, fr *pframe, x *ssa.Call, depth int) {
 			}
 			if all {
 				sort.SliceStable(l, func(i, j int) bool { return l[i].i < l[j].i })
+				for k, e := range append([]pval{}, l...) {
+					fr.heap.storeElem(a.i, int64(k), e)
+				}
 			} else {
-				fr.heap.lists[a.i] = nil
+				fr.heap.forget(a.i)
 			}
 		}
 		return
@@ -1615,8 +2045,26 @@ func (p *pinterp) call(fn *ssa.Function, fr *pframe, x *ssa.Call, depth int) {
 		fr.env[x] = args[0]
 		return
 	}
+	if p.intercept != nil {
+		if res, ok := p.intercept(fn, x, sc, args, fr.heap); ok {
+			if len(res) == 1 {
+				fr.env[x] = res[0]
+			} else if len(res) > 1 {
+				fr.tuples[x] = res
+			}
+			return
+		}
+	}
 	if p.onLib != nil {
 		p.onLib(fn, x, sc, args, fr.heap)
+	}
+	if len(sc.FreeVars) > 0 {
+		fv := p.val(fr, cc.Value)
+		if fv.k != pFunc || fr.heap.lists[fv.i] == nil {
+			p.havoc(fr, args)
+			return
+		}
+		p.nextFree = fr.heap.lists[fv.i]
 	}
 	res, h := p.run(sc, args, depth+1, fr.heap.clone())
 	if h != nil {
@@ -1640,6 +2088,26 @@ func (p *pinterp) call(fn *ssa.Function, fr *pframe, x *ssa.Call, depth int) {
 	default:
 		fr.tuples[x] = res
 	}
+}
+
+// callFunc calls a function value of the library (a closure with known bindings included) with the given
+// arguments on the frame's heap.
+func (p *pinterp) callFunc(fr *pframe, fv pval, args []pval, depth int) ([]pval, bool) {
+	if fv.k != pFunc || fv.fn == nil || len(fv.fn.Blocks) == 0 || !(isLibFn(fv.fn) || isControlFn(fv.fn)) || depth >= p.maxDepth() {
+		return nil, false
+	}
+	if len(fv.fn.FreeVars) > 0 {
+		if fr.heap.lists[fv.i] == nil {
+			return nil, false
+		}
+		p.nextFree = fr.heap.lists[fv.i]
+	}
+	res, h := p.run(fv.fn, args, depth+1, fr.heap.clone())
+	if h == nil {
+		return nil, false
+	}
+	fr.heap = h
+	return res, true
 }
 
 // reduction models the shape contract of gorgonia's Dense.Max/Min/Sum(t, axes...): the listed axes go, all
@@ -1822,6 +2290,9 @@ func (p *pinterp) globalValue(g *ssa.Global) (pval, bool) {
 		return pval{}, false
 	}
 	path := g.Pkg.Pkg.Path()
+	if p.c.isSentinelGlobal(g) {
+		return pval{k: pNonNil}, true // a package-level error value made by errors.New
+	}
 	if path == pkgTensor {
 		if n, ok := g.Type().(*types.Pointer); ok {
 			if nn, ok := n.Elem().(*types.Named); ok && nn.Obj().Name() == "Dtype" {
@@ -2004,4 +2475,128 @@ func (p *pinterp) sliceModel(fr *pframe, t pval, cc *ssa.CallCommon) ([]pval, bo
 		}
 	}
 	return []pval{nv, {k: pNil}}, true
+}
+
+// pcover records which basic blocks the cells of a finite table walked. A table that passes may stand in for a
+// structural rule only when it saw all the code concerned: a block no cell reaches (a separate path for large
+// inputs, say) is code the table knows nothing about.
+type pcover struct {
+	blocks map[*ssa.BasicBlock]bool
+	fns    map[*ssa.Function]bool
+	roots  map[*ssa.Function]bool // the functions the table is about (concerned even when exported)
+	skip   map[*ssa.Function]bool // walked, but judged by other rules (an operator's Init under a table about Apply)
+}
+
+func newCover(roots ...*ssa.Function) *pcover {
+	pc := &pcover{blocks: map[*ssa.BasicBlock]bool{}, fns: map[*ssa.Function]bool{}, roots: map[*ssa.Function]bool{}}
+	for _, r := range roots {
+		pc.roots[r] = true
+	}
+	return pc
+}
+
+func (pc *pcover) mark(fn *ssa.Function, b *ssa.BasicBlock) {
+	pc.blocks[b] = true
+	pc.fns[fn] = true
+}
+
+// uncovered lists the blocks of the walked library functions (hand-written code only) that no cell entered, except
+// blocks that only pass on the failure of a call (entered on err != nil and ending in an error return) and blocks
+// that end in a panic or cannot be reached at all.
+func (pc *pcover) uncovered(c *Ctx) []string {
+	var out []string
+	// the code concerned: the walked functions of the library that are not part of its exported vocabulary (those
+	// have contracts of their own), and the function literals inside them whether entered or not
+	concerned := map[*ssa.Function]bool{}
+	var addAnon func(f *ssa.Function)
+	addAnon = func(f *ssa.Function) {
+		for _, a := range f.AnonFuncs {
+			if !concerned[a] {
+				concerned[a] = true
+				addAnon(a)
+			}
+		}
+	}
+	for fn := range pc.fns {
+		if !(isLibFn(fn) || isControlFn(fn)) || strings.HasSuffix(c.fileOf(fn.Pos()), ".pb.go") {
+			continue
+		}
+		exported := fn.Object() != nil && fn.Object().Exported() && fn.Signature.Recv() == nil && fn.Parent() == nil
+		if (exported && !pc.roots[fn]) || pc.skip[fn] {
+			continue
+		}
+		concerned[fn] = true
+		addAnon(fn)
+	}
+	for fn := range concerned {
+		if len(fn.Blocks) > 0 && !pc.fns[fn] {
+			out = append(out, "the function literal "+fname(fn)+" at "+c.pos(fn.Pos()))
+			continue
+		}
+		for _, b := range fn.Blocks {
+			if pc.blocks[b] || len(b.Instrs) == 0 || (len(b.Preds) == 0 && b != fn.Blocks[0]) || b == fn.Recover {
+				continue
+			}
+			if _, isPanic := b.Instrs[len(b.Instrs)-1].(*ssa.Panic); isPanic {
+				continue
+			}
+			if c.errorPassingBlock(b) {
+				continue
+			}
+			// a block all of whose predecessors are uncovered and excused is excused as well (the tail of an error path)
+			allExcused := len(b.Preds) > 0
+			for _, pr := range b.Preds {
+				if pc.blocks[pr] || !c.errorPassingBlock(pr) {
+					allExcused = false
+				}
+			}
+			if allExcused {
+				continue
+			}
+			pos := fn.Pos()
+			for _, in := range b.Instrs {
+				if in.Pos().IsValid() {
+					pos = in.Pos()
+					break
+				}
+			}
+			out = append(out, fname(fn)+" at "+c.pos(pos))
+		}
+	}
+	sort.Strings(out)
+	return out
+}
+
+// errorPassingBlock: the block is entered only on the failing edge of a nil test of an error (or of a comma-ok
+// flag) and every path from it ends in an error return.
+func (c *Ctx) errorPassingBlock(b *ssa.BasicBlock) bool {
+	if len(b.Preds) != 1 || !c.blockRejects(b, 0) {
+		return false
+	}
+	pr := b.Preds[0]
+	iff, ok := pr.Instrs[len(pr.Instrs)-1].(*ssa.If)
+	if !ok {
+		return false
+	}
+	cond := iff.Cond
+	for {
+		if u, ok := cond.(*ssa.UnOp); ok && u.Op == token.NOT {
+			cond = u.X
+			continue
+		}
+		break
+	}
+	if bo, ok := cond.(*ssa.BinOp); ok && (bo.Op == token.NEQ || bo.Op == token.EQL) {
+		if (isNilConst(bo.X) && isErrorType(bo.Y.Type())) || (isNilConst(bo.Y) && isErrorType(bo.X.Type())) {
+			return true
+		}
+	}
+	if ex, ok := cond.(*ssa.Extract); ok {
+		// the ok of a type assertion / map lookup made by the code itself
+		switch ex.Tuple.(type) {
+		case *ssa.TypeAssert:
+			return true
+		}
+	}
+	return false
 }
